@@ -103,7 +103,8 @@ def standin(rep: Report):
     srcs = pool.PY_STMTS + pool.XSH_STMTS + ["f'''a\n{x} d'''\n", "f'''{a}\n{b}'''\n", "x = '''a\nb''' + 1\n", "f'{a:>{w}}' f'{b}'\n", "f'{{}}{a}'\n",
                                              'f"{a!r:^10}"\n', "x = 1 \\\n  + 2\n", "if a:\n  b\n\n  c\nd\n", "'abc\n", "x = (\n", "\\\n", " \f x\n",
                                              "f'''\n{a}\n{b:\n>5}\n'''\n", "msg = f\"\"\"Dear {name},\n\n{body}\n\"\"\"\n", "x = 'a\\\nb'\n", "x = f'a\\\n{b}'\n",
-                                             "x\r\ny\r\n", "if a:\r\n\tb\r\n", "é = 'ü'\n", "$(echo 'a b' é)\n"]
+                                             "x\r\ny\r\n", "if a:\r\n\tb\r\n", 'f"{x:=5}"\n', "f'{v:=^{w}} and {total:=+9,.2f}'\n", "x = 'a\\\r\nb'\r\n", "y = f'a\\\r\n{b}'\r\n",
+                                             "print(f\"\"\"a\n{val:=^{width}} b\n\"\"\")\n", "é = 'ü'\n", "$(echo 'a b' é)\n"]
     for _n, s in pool.data_files():
         srcs.append(s)
     alpha = ["a", "1", " ", "\n", "'", '"', "\\", "{", "}", "f", "(", ")", "#", "\t", "$", "`", ":", "!", "'''", "\f", "\r\n", "é"]
